@@ -25,7 +25,7 @@ CONSTANTS ReaderCap, ValCap0,        \* real: 100 and 128 (first validator ValCa
 VARIABLES rpc, rlen,                 \* reader: "check" | "sending" | "sent" | "done"; length of the batch being sent
           qRA,                       \* queue of batch lengths (reader -> analysis / writer)
           rcvMain, rcvA, rcvW,       \* live receiver handles of that channel
-          apc, arem,                 \* analysis: "check" | "recv" | "taken" | "batch" | "sending" | "join" | "joining" | "done"; packets left in batch
+          apc, arem,                 \* analysis: "check" | "recv" | "taken" | "batch" | "sending" | "join" | "joining" | "exited" | "done"; packets left in batch
           vorder,                    \* dispatch ids in spawn order (fixes the capacity of each validator channel)
           qV, vSend, vpc,            \* per id: queue length, dispatcher's sender alive, validator "loop" | "taken" | "busy" | "done"
           wpc, wout,                 \* writer: "recv" | "taken" | "got" | "done"; number of whole batches pushed to the output buffer
@@ -87,7 +87,10 @@ AEnqueue == apc = "sending" /\ qV[asend] < CapOf(asend)
             /\ U(<< rpc, rlen, qRA, rcvMain, rcvA, rcvW, vorder, vSend, vpc, wpc, wout, mpc, cpc, stop, asend >>)
 AJoinStart == apc = "join" /\ vSend' = [l \in DOMAIN vSend |-> FALSE] /\ apc' = "joining"
               /\ U(<< rpc, rlen, qRA, rcvMain, rcvA, rcvW, arem, vorder, qV, vpc, wpc, wout, mpc, cpc, stop >>)
-AExit == apc = "joining" /\ (\A l \in Spawned : vpc[l] = "done") /\ apc' = "done" /\ rcvA' = FALSE
+\* the thread's last logged event comes BEFORE its closure returns and its receiver handle is dropped: until then the reader can still enqueue
+AExit == apc = "joining" /\ (\A l \in Spawned : vpc[l] = "done") /\ apc' = "exited"
+         /\ U(<< rpc, rlen, qRA, rcvMain, rcvA, rcvW, arem, vorder, qV, vSend, vpc, wpc, wout, mpc, cpc, stop >>)
+ADrop == apc = "exited" /\ apc' = "done" /\ rcvA' = FALSE
          /\ U(<< rpc, rlen, qRA, rcvMain, rcvW, arem, vorder, qV, vSend, vpc, wpc, wout, mpc, cpc, stop >>)
 \* ---------- validators ----------
 VTake(l) == l \in Spawned /\ vpc[l] \in {"loop", "busy"} /\ qV[l] > 0 /\ qV' = [qV EXCEPT ![l] = @ - 1] /\ vpc' = [vpc EXCEPT ![l] = "taken"]
@@ -101,12 +104,15 @@ WTake == wpc = "recv" /\ qRA # << >> /\ qRA' = Tail(qRA) /\ wpc' = "taken"
          /\ U(<< rpc, rlen, rcvMain, rcvA, rcvW, apc, arem, vorder, qV, vSend, vpc, wout, mpc, cpc, stop >>)
 WRecv == wpc = "taken" /\ wpc' = "got"
          /\ U(<< rpc, rlen, qRA, rcvMain, rcvA, rcvW, apc, arem, vorder, qV, vSend, vpc, wout, mpc, cpc, stop >>)
-WStopBreak == wpc = "got" /\ stop /\ wpc' = "done" /\ rcvW' = FALSE
-              /\ U(<< rpc, rlen, qRA, rcvMain, rcvA, apc, arem, vorder, qV, vSend, vpc, wout, mpc, cpc, stop >>)
+WStopBreak == wpc = "got" /\ stop /\ wpc' = "exited"
+              /\ U(<< rpc, rlen, qRA, rcvMain, rcvA, rcvW, apc, arem, vorder, qV, vSend, vpc, wout, mpc, cpc, stop >>)
 WPushed == wpc = "got" /\ wpc' = "recv" /\ wout' = wout + 1       \* (the stop check that preceded the push is not observable: see Trace_Pipe2)
            /\ U(<< rpc, rlen, qRA, rcvMain, rcvA, rcvW, apc, arem, vorder, qV, vSend, vpc, mpc, cpc, stop >>)
-WRecvDisc == wpc = "recv" /\ qRA = << >> /\ rpc = "done" /\ wpc' = "done" /\ rcvW' = FALSE
-             /\ U(<< rpc, rlen, qRA, rcvMain, rcvA, apc, arem, vorder, qV, vSend, vpc, wout, mpc, cpc, stop >>)
+WRecvDisc == wpc = "recv" /\ qRA = << >> /\ rpc = "done" /\ wpc' = "exited"
+             /\ U(<< rpc, rlen, qRA, rcvMain, rcvA, rcvW, apc, arem, vorder, qV, vSend, vpc, wout, mpc, cpc, stop >>)
+\* (the writer's buffer is flushed and its receiver dropped when its closure returns, after its last logged event)
+WDrop == wpc = "exited" /\ wpc' = "done" /\ rcvW' = FALSE
+         /\ U(<< rpc, rlen, qRA, rcvMain, rcvA, apc, arem, vorder, qV, vSend, vpc, wout, mpc, cpc, stop >>)
 \* ---------- main ----------
 MDrop == mpc = "drop" /\ rcvMain' = (IF MainKeepsReceiver THEN rcvMain ELSE FALSE) /\ mpc' = "forward"
          /\ U(<< rpc, rlen, qRA, rcvA, rcvW, apc, arem, vorder, qV, vSend, vpc, wpc, wout, cpc, stop >>)
